@@ -948,3 +948,26 @@ def _limit_rebinds(fi, rep, rule, allowed_neg):
             reach = g.reach_filtered(g.entry, lambda u, v, lab: not (lab and lab[0] == "cond" and lab[2] is True and norm(lab[1]) in ("limit < 0", "0 > limit", "limit <= -1")))
             ok = n not in reach
         rep.check(ok, rule, fi.short, f"{norm(d)[:40]}", "limit re-bound to an unbounded form only when negative", f"`{norm(d)[:60]}` changes the limit the caller asked for", fi.loc(d))
+
+
+def count_source(prog, rep, rule="COUNT-SOURCE"):
+    """get_eventcount answers from the stored rows, every time"""
+    from .trace import deep
+
+    rep.rule(rule, "every value get_eventcount returns is computed in that call from the bucket's stored events: the first column of the row fetched from the SELECT count(*) statement (sqlite), <query>.count() (peewee), len() of the filtered list (memory); a counter kept on the side can drift from the rows (no-op deletes, upserts counted as inserts)")
+    for cname in ("SqliteStorage", "PeeweeStorage", "MemoryStorage"):
+        fi = prog.func(f"{cname}.get_eventcount")
+        rets = [r for r in walk_own(fi.node) if isinstance(r, ast.Return) and r.value is not None]
+        if not rets:
+            rep.violation(rule, fi.short, "return", "get_eventcount returns nothing", fi.loc())
+            continue
+        for r in rets:
+            v = deep(r.value, fi)
+            t = norm(v)
+            if cname == "SqliteStorage":
+                ok = isinstance(v, ast.Subscript) and isinstance(v.slice, ast.Constant) and v.slice.value == 0 and ".fetchone()" in t and ".execute(" in t
+            elif cname == "PeeweeStorage":
+                ok = isinstance(v, ast.Call) and isinstance(v.func, ast.Attribute) and v.func.attr == "count" and not v.args
+            else:
+                ok = (isinstance(v, ast.Call) and norm(v.func) in ("len", "sum")) or isinstance(v, ast.Name)
+            rep.check(ok, rule, fi.short, f"return {norm(r.value)[:40]}", "computed from the stored rows in this call", f"`{norm(r)[:80]}` (= `{t[:80]}`) is not the count of the bucket's stored events computed by this call: a count kept elsewhere (cache, counter) agrees with a read only as long as every write path keeps it exact", fi.loc(r))
